@@ -459,17 +459,17 @@ func checkLife(lc *dictLifeCase) (bad string) {
 		if len(values) == 0 && len(lc.Pre) > 0 && !inserted {
 			// the lookup table of a dictionary created over values is built by
 			// its first Insert, with the caller's indexes as scratch space: an
-			// Insert of nothing must return (run under a watchdog, once per kind)
-			hung, seen := hangs[lc.Kind]
-			if !seen {
+			// Insert of nothing must return (run under a watchdog)
+			hung := hangs[lc.Kind]
+			if !hung {
 				done := make(chan string, 1)
 				go func() { done <- safely(func() { d.Insert(indexes[:0], values) }) }()
 				select {
 				case <-done:
 				case <-time.After(2 * time.Second):
 					hung = true
+					hangs[lc.Kind] = true // the goroutine is lost: not tried again
 				}
-				hangs[lc.Kind] = hung
 			}
 			if hung {
 				return "HANG: " + at + " as the first Insert into a dictionary created over values does not return"
@@ -607,9 +607,9 @@ func (k *checker) checkLifeCase(lc *dictLifeCase) {
 		bad = "panic: " + core.Trunc(p, 200)
 	}
 	if strings.HasPrefix(bad, "HANG: ") {
-		k.viol("dict-life-hang", "Dictionary ("+lc.Kind+") "+lifeHistory(lc)+": "+bad[6:])
+		k.viol("dict-life-hang-"+lc.Kind, "Dictionary ("+lc.Kind+") "+lifeHistory(lc)+": "+bad[6:])
 	} else if bad != "" {
-		k.viol("dict-life", "Dictionary ("+lc.Kind+") "+lifeHistory(lc)+": "+bad)
+		k.viol("dict-life-"+lc.Kind, "Dictionary ("+lc.Kind+") "+lifeHistory(lc)+": "+bad)
 	}
 }
 
@@ -758,8 +758,14 @@ func keysFrom(rng *rand.Rand, n, base, span, mode int) []int {
 	return out
 }
 
+// the dictionary scenarios draw from their own generator (derived from the
+// seed) so that they do not shift the cases of the encodings
+func dictRng(c *core.Ctx, salt int64) *rand.Rand {
+	return rand.New(rand.NewSource(c.Seed*7919 + salt))
+}
+
 func dictLife(c *core.Ctx) {
-	rng := c.Rng
+	rng := dictRng(c, 4)
 	// every short history over a small alphabet of calls, for every kind, on an
 	// empty dictionary and on dictionaries created over existing values
 	alphabet := []dictOp{{Reset: true}, {Keys: []int{}}, {Keys: []int{10}}, {Keys: []int{11}}, {Keys: []int{10, 11}},
@@ -793,10 +799,13 @@ func dictLife(c *core.Ctx) {
 			lc := &dictLifeCase{Kind: k.name}
 			span := []int{1, 2, 5, 40, 300, 1500}[rng.Intn(6)]
 			if rng.Intn(3) == 0 {
-				lc.Pre = keysFrom(rng, 1+rng.Intn(span), 0, 1<<30, 0)
-				lc.Pre = lc.Pre[:min(len(lc.Pre), 700)]
-				if k.isBool() {
-					lc.Pre = lc.Pre[:min(len(lc.Pre), 2)]
+				// distinct values, as a dictionary page holds them
+				seen := map[string]bool{}
+				for _, key := range keysFrom(rng, min(1+rng.Intn(span), 700), 0, 1<<30, 0) {
+					if vk := valueKey(k.val(key)); !seen[vk] {
+						seen[vk] = true
+						lc.Pre = append(lc.Pre, key)
+					}
 				}
 			}
 			base := 0
@@ -1303,7 +1312,7 @@ func (k *checker) checkFileCase(fc *dictFileCase) {
 		bad = "panic: " + core.Trunc(p, 200)
 	}
 	if bad != "" {
-		k.viol("dict-file", fc.what()+": "+bad)
+		k.viol("dict-file-"+fc.Kind, fc.what()+": "+bad)
 	}
 }
 
@@ -1511,7 +1520,7 @@ func groupsOf(rng *rand.Rand, pattern string, g, r, d int, shape string) [][][]i
 var dictPatterns = []string{"same", "disjoint", "new-then-old", "subset", "random"}
 
 func dictFile(c *core.Ctx) {
-	rng := c.Rng
+	rng := dictRng(c, 5)
 	shapes := []string{"required", "optional", "repeated"}
 	splits := []string{"flush", "maxrows", "reset", "abandon"}
 	reps := c.N(1, 4)
